@@ -659,16 +659,36 @@ def c07_bulk(ctx):
         ops = ["in %s" % hx(s)] + ["drive @ flat %d 7 4 %s" % (L, sc) for sc in scheds]
         ctx.add("bf%d" % k, ops, model=False, kind="same", mode="flat")
         ops = ["in %s" % hx(s)] + ["drive @ ring 32768 7 0 %s" % sc for sc in scheds]
-        ctx.add("br%d" % k, ops, model=False, kind="same", mode="ring")
+        ctx.add("br%d" % k, ops, model=False, kind="same", mode="ring", xmode=("bf%d" % k) if p else None)
+        if name.startswith("ring"):
+            R = int(name[4:].split("_")[0])
+            rs = ["100000:-", "1:-", "100000:1", "100000:2", "100000:3", "100000:5", "7:11"] + ["100000:%d" % b for b in range(1, 40)]
+            ops = ["in %s" % hx(s)] + ["drive @ ring %d 7 0 %s" % (R, sc) for sc in rs]
+            ctx.add("bq%d" % k, ops, model=(ctx.tier == "thorough"), kind="same", mode="ring", xmode="bf%d" % k)
+        if name.startswith("match_then_stored") or name.startswith("fast_lit_258") or name.startswith("short_stored"):
+            # output-full suspension at every budget, then the rest of the input in 1-, 2- or 3-byte pieces
+            ops = ["in %s" % hx(s)]
+            for b in range(1, min(len(p), 560)):
+                ops.append("drive @ flat %d 7 4 100000:%d|%d:-" % (L, b, 1 + b % 3))
+            ctx.add("bs%d" % k, ops, model=False, kind="same", mode="flat", xmode="bf%d" % k)
+            ops = ["in %s" % hx(s)]
+            for b in range(1, min(len(p), 560), 3):
+                ops.append("drive @ ring 32768 7 0 100000:%d|%d:-" % (b, 1 + b % 3))
+            ctx.add("bt%d" % k, ops, model=False, kind="same", mode="ring", xmode="bf%d" % k)
 
 
 def c07_eval(ctx):
     fails = []
+    refs = {}
     for cid, ops in ctx.cases:
         for tag, res in (("debug", ctx.impl), ("release", ctx.impl_rel)):
             if not res:
                 continue
             ref = None
+            xm = ctx.meta[cid].get("xmode")
+            if xm and (xm, tag) in refs and refs[(xm, tag)][0][0] == "0":
+                # a stream that decodes to Done in the flat reference case is valid: results agree across modes too
+                ref = refs[(xm, tag)]
             for k, op in enumerate(ops, 1):
                 w = op.split()
                 if w[0] not in ("drive", "isdrive"):
@@ -679,9 +699,13 @@ def c07_eval(ctx):
                     if f.get("why") in ("stall", "cap", "outfull"):
                         # a stalled schedule is only acceptable if it offered no progress possibility
                         continue
+                if "PANIC" in res.get((cid, k), ("", "MISSING"))[1]:
+                    fails.append((cid, "%s: `%s` panicked" % (tag, op[:70])))
+                    break
                 obs = (f.get("st"), f.get("in"), f.get("out"), f.get("o"))
                 if ref is None:
                     ref = (obs, op)
+                    refs[(cid, tag)] = ref
                 elif obs != ref[0]:
                     fails.append((cid, "%s: same input, same buffer mode, different schedules give different results: `%s` -> %s but `%s` -> %s" % (
                         tag, ref[1][-40:], ref[0], op[-40:], obs)))
@@ -775,6 +799,9 @@ def c08_eval(ctx):
                     pos = int(w[2])
                     bud = None if w[3] == "-" else int(w[3])
                     space = blen - pos if bud is None else min(bud, blen - pos)
+                    if "out" not in f or "in" not in f:
+                        fails.append((cid, "%s build, op#%d `%s`: no result (panic): %s" % (tag, k, op[:60], line[:40])))
+                        break
                     oc, ic, st = int(f["out"]), int(f["in"]), f["st"]
                     offered = len(bytes.fromhex(ops[0].split()[1])) if ops[0].split()[1] != "-" else 0
                     if f.get("outside") != "same":
